@@ -96,9 +96,7 @@ class decode(Contract):
 
 def _input_name(cx, label='name'):
     """a FormalName of arbitrary length: list of byte strings (each in some cell, arbitrary bytes)"""
-    seq = BufSeq.fresh(cx.run, label, 'bytearray')
-    cx.run.inputs.append((label, 'bufseq', seq))
-    return seq
+    return cx.run.input_bufseq(label, 'bytearray')
 
 
 @contract
